@@ -1,13 +1,18 @@
 """C20 — calls are isolated: same input, same result, whatever ran before or alongside."""
 import copy, hashlib, json, os, random, re, subprocess, sys, threading
-from tools.harness import common, corpus as corpus_mod
+from tools.harness import common, corpus as corpus_mod, reuse
 from tools.harness.common import DIALECTS
 
 ID = 'C20'
-TARGETS = ['MindsVerif.Props.C20']
+TARGETS = ['MindsVerif.Props.C20', 'MindsVerif.Props.C20B']
 THEOREMS = ['MindsVerif.Props.C20.C20_noninterference', 'MindsVerif.Props.C20.C20_result_schedule_independent',
             'MindsVerif.Props.C20.C20_lazy_global', 'MindsVerif.Props.C20.C20_review_lazy_global_any_state',
-            'MindsVerif.Props.C20.C20_review_lazy_global_interleaved', 'MindsVerif.Props.C20.C20_review_noninterference_lazy_write']
+            'MindsVerif.Props.C20.C20_review_lazy_global_interleaved', 'MindsVerif.Props.C20.C20_review_noninterference_lazy_write',
+            'MindsVerif.Props.C20.C20_reuse_history_independent', 'MindsVerif.Props.C20.C20_reuse_any_two_histories',
+            'MindsVerif.Props.C20.C20_reuse_table_history_independent', 'MindsVerif.Props.C20.C20_reuse_memo_transparent',
+            'MindsVerif.Props.C20.C20_witness_reuse_create_twice', 'MindsVerif.Props.C20.C20_witness_reuse_define_then_use',
+            'MindsVerif.Props.C20.C20_witness_reuse_fixed',
+            'MindsVerif.Props.C20B.C20B_frame_ok', 'MindsVerif.Props.C20B.C20B_history_independent']
 ASSUME = [
     'the theorems cover the logical structure only: calls stepping private state and reading a shared store; '
     'that parse_sql / plan_query / SqlalchemyRender calls have this structure is CHECKED on the real code by this run '
@@ -16,6 +21,12 @@ ASSUME = [
     'with the same call made as the only call of a fresh process; catalogs compared fresh vs reused), not proved',
     'byte-code level interleavings are sampled (8-16 threads, switch interval 1e-6; cold start: 8 threads making the first call of a fresh process together), not enumerated',
     'hash randomisation: a finite set of PYTHONHASHSEED values is compared',
+    'reused objects (SqlalchemyRender, QueryPlanner, lexer/parser pairs): C20_reuse_* / C20B_history_independent assume that the real '
+    'methods respect the footprint table; the table is PROBED on every run (get/set trace of instance attributes + deep snapshots '
+    'before/after each call of a fixed probe set, Gen/Footprint.lean) and the frame condition on it is decided by the kernel (Props/C20B); '
+    'exempt write paths: SQLAlchemy memo tables inside the dialect object, SLY position logs nobody reads, and the listed known finding; '
+    'the conclusion is CHECKED on random sessions that repeat names: every call on a reused object against the same call on a new object '
+    'in a pristine process',
 ]
 
 CATALOG = dict(
@@ -138,6 +149,8 @@ def do_job(job):
             from mindsdb_sql.render.sqlalchemy_render import SqlalchemyRender
             q = parse_sql(arg, 'mindsdb')
             return 'sql:' + SqlalchemyRender(d).get_string(q, with_failback=True)
+        if kind == 'fresh':    # a call / episode on a NEW long-lived object: arg = call (JSON), d = object spec (JSON)
+            return reuse.fresh_result(tuple(json.loads(d)), json.loads(arg))
     except Exception as e:
         return 'exc:%s:%s' % (type(e).__name__, str(e))
     return 'none'
@@ -355,13 +368,137 @@ def run_subprocess(jobs, hashseed):
     return json.loads(p.stdout.strip().split('\n')[-1])
 
 
+def reuse_plan(chk, deeper):
+    """the sessions of this run and the distinct (object spec, call) pairs, as jobs for the first hash-seed subprocess:
+    there every pair is evaluated on a NEW object before anything else has run in that process"""
+    rng = common.rng_for(chk.seed, 'C20/reuse')
+    sess = reuse.sessions(rng, 2 if not deeper else 8, 10 if not deeper else 16)
+    pairs, seen = [], set()
+    for spec, calls in sess:
+        for c in calls:
+            k = json.dumps([list(spec), c])
+            if k not in seen:
+                seen.add(k)
+                pairs.append((spec, c))
+    jobs = [('fresh', json.dumps(c), json.dumps(list(spec))) for spec, c in pairs]
+    return dict(rng=rng, sessions=sess, pairs=pairs, jobs=jobs)
+
+
+def reuse_streams(chk, fail, dist, plan, ref_results):
+    """history streams on REUSED objects: sessions that repeat table / alias / CTE names on one SqlalchemyRender
+    (get_string / get_exec_params, with and without failback, every dialect name), one QueryPlanner (from_query,
+    prepare_steps / get_statement_info / execute_steps episodes, abandoned episodes) and one lexer / parser pair;
+    every result against the same call on a new object in a pristine process (`ref_results`).  Also: the same with one
+    object per thread and 8 threads, and the footprints of the random sessions against the generated table."""
+    import time
+    t_start = time.time()
+    rng, sess, pairs = plan['rng'], plan['sessions'], plan['pairs']
+    deeper = len(sess) > 2 * len(reuse.specs())
+    key = lambda spec, call: json.dumps([list(spec), call])
+    ref = dict(zip((key(sp, c) for sp, c in pairs), ref_results))
+    n_calls = n_bad = 0
+    per_class, hints = {}, {}
+
+    def report(spec, hist, call, want, got, where):
+        cls = reuse.CLASS_OF.get(spec[0], 'Parser')
+        fresh_here = reuse.fresh_result(spec, call)
+        if fresh_here != want:
+            fail('reuse:fresh-differs-from-pristine', 'a NEW object in this process answers differently from a new object in a '
+                 'pristine process', spec=list(spec), call=call, pristine=want[:400], here=fresh_here[:400])
+            return
+        short = reuse.shrink(spec, hist, call, want)
+        obj = reuse.make(spec)
+        for c in short:
+            reuse.do_call(obj, c)
+        got_short = reuse.do_call(obj, call)
+        if got_short == want:      # not reproducible from a new object (depends on more than the history of this object)
+            short, got_short = list(hist), got
+        causes = reuse.diagnose(spec, short, call, want, hint=hints.get(spec[0]))
+        if causes:
+            hints[spec[0]] = causes
+        sig = 'reuse:%s:%s' % (cls, '+'.join(a.split('.', 1)[1] for a in causes) if causes else 'undiagnosed')
+        fail(sig, 'the result of a call on a REUSED %s depends on the calls made on the same object before (%s): a new object '
+             'answers differently' % (cls, ', '.join(causes) or 'cause not isolated'),
+             reuse=dict(spec=list(spec), history=short, call=call), fresh=want[:600], reused=got_short[:600],
+             session_length=len(hist), where=where, cause_attributes=causes)
+
+    def run_session(spec, calls, where, out):
+        """one session on ONE object; out = dict(keys=[...], bad=[(spec, history, call, want, got)])"""
+        obj, hist = reuse.make(spec), []
+        for c in calls:
+            r = reuse.do_call(obj, c)
+            out['keys'].append(('reuse', where, spec, json.dumps(c), len(hist)))
+            if r != ref[key(spec, c)]:
+                out['bad'].append((spec, list(hist), c, ref[key(spec, c)], r))
+                obj, hist = reuse.make(spec), []       # start again from a new object
+            else:
+                hist.append(c)
+
+    def account(spec, out, where):
+        nonlocal n_calls, n_bad
+        for k in out['keys']:
+            chk.count(k)
+        n_calls += len(out['keys'])
+        n_bad += len(out['bad'])
+        per_class[spec[0]] = per_class.get(spec[0], 0) + len(out['keys'])
+        for spec_, hist, c, want, got in out['bad']:
+            report(spec_, hist, c, want, got, where)
+
+    for spec, calls in sess:
+        out = dict(keys=[], bad=[])
+        run_session(spec, calls, 'sequential', out)
+        account(spec, out, 'sequential')
+    # one object per thread, 8 threads at a time (objects are not shared; what is shared is class-level)
+    group = [x for x in sess]
+    rng.shuffle(group)
+    outs = [dict(keys=[], bad=[]) for _ in group]
+    sys.setswitchinterval(1e-6)
+    try:
+        for i in range(0, len(group), 8):
+            ths = [threading.Thread(target=run_session, args=(group[k][0], group[k][1], 'threads', outs[k]))
+                   for k in range(i, min(i + 8, len(group)))]
+            [t.start() for t in ths]
+            [t.join() for t in ths]
+    finally:
+        sys.setswitchinterval(0.005)
+    for (spec, _), out in zip(group, outs):
+        account(spec, out, 'threads')
+    # footprints of random sessions against the generated table (attribute level)
+    try:
+        table = json.load(open(os.path.join(common.ROOT, 'gen', 'footprint.json')))['table']
+        acc, outside = {}, []
+        done = set()
+        for spec, calls in sess:
+            if spec in done and not deeper:
+                continue
+            done.add(spec)
+            reuse.probe_session(spec, calls, acc)
+        for (label, call), row in sorted(acc.items()):
+            t = table.get(label, {}).get(call)
+            if t is None:
+                outside.append('%s.%s: no row' % (label, call))
+                continue
+            extra_r = sorted(row['reads'] - set(t['reads']))
+            extra_w = sorted({a for a, _ in row['writes']} - {a for a, _ in t['writes']})
+            if extra_r or extra_w:
+                outside.append('%s.%s: reads %s writes %s not in Gen/Footprint' % (label, call, extra_r, extra_w))
+        chk.oblige('assume:footprint-table-covers-sessions', 'assumption-check', not outside,
+                   'calls of the random sessions touched attributes the generated footprint table does not list: ' + '; '.join(outside))
+        dist['reuse_footprint_rows_checked'] = len(acc)
+    except Exception as e:
+        chk.oblige('assume:footprint-table-covers-sessions', 'assumption-check', False, str(e))
+    dist.update(reuse_sessions=len(sess), reuse_calls=n_calls, reuse_distinct_calls=len(pairs), reuse_per_kind=per_class,
+                reuse_diverged=n_bad, reuse_wall_s=round(time.time() - t_start, 1))
+
+
 def kf_match(k, f):
     return k.get('sig') == f.get('sig')
 
 
 def run(chk):
     quick = chk.tier == 'quick'
-    deep = (not quick) or bool(chk.broken())
+    # a broken frame obligation (Props/C20B: generated footprint table) makes the reuse streams search deeper, not everything
+    deep = (not quick) or bool([o for o in chk.broken() if o['name'] != 'build:MindsVerif.Props.C20B'])
     rng = common.rng_for(chk.seed, 'C20')
     jobs = jobs_for(rng, 400 if not deep else 4000)
     uniq = sorted(set(jobs))
@@ -505,8 +642,11 @@ def run(chk):
     seeds = [0, 1, 2, 3, 4, 5, 6, 7] if not deep else list(range(16))
     per_seed = {}
     try:
+        # the first subprocess also evaluates, before anything else, every call of the reuse sessions on a NEW object
+        rplan = reuse_plan(chk, deep or bool(chk.broken()))
         for hs in seeds:
-            per_seed[hs] = run_subprocess([list(j) for j in uniq], hs)
+            per_seed[hs] = run_subprocess([list(j) for j in (rplan['jobs'] if hs == seeds[0] else [])] + [list(j) for j in uniq], hs)
+        rref, per_seed[seeds[0]] = per_seed[seeds[0]][:len(rplan['jobs'])], per_seed[seeds[0]][len(rplan['jobs']):]
         ref = per_seed[seeds[0]]
         for hs in seeds[1:]:
             for j, a, b in zip(uniq, ref, per_seed[hs]):
@@ -519,6 +659,8 @@ def run(chk):
                         fail('hashseed', 'result depends on PYTHONHASHSEED', job=list(j), seed_a=seeds[0], seed_b=hs,
                              a=a[:300], b=b[:300])
         chk.oblige('assume:hashseed-subprocesses', 'assumption-check', True)
+        # --- REUSED objects: sessions on one renderer / planner / lexer+parser pair against new objects in a pristine process
+        reuse_streams(chk, fail, dist, rplan, rref)
         # --- isolated reference: a sample of jobs, each as the only call of a fresh process, against the same job
         # after the history of this process and against the sequential subprocess
         quoting_all = [j for j in uniq if j[0] in ('parse', 'render') and '`' in j[1]]
@@ -585,5 +727,20 @@ def run(chk):
 
 def replay(path):
     data = json.load(open(path))
-    print(json.dumps(data.get('failure') or data, indent=1)[:3000])
+    f = data.get('failure') or {}
+    print(json.dumps(f or data, indent=1)[:3000])
+    if f.get('reuse'):
+        # re-run on the real code: the history and the call on ONE object, the call alone on a new object
+        r = f['reuse']
+        spec = tuple(r['spec'])
+        obj = reuse.make(spec)
+        for c in r['history']:
+            print('history call  %s -> %s' % (json.dumps(c), reuse.do_call(obj, c)[:200].replace('\n', ' ')))
+        got = reuse.do_call(obj, r['call'])
+        want = reuse.fresh_result(spec, r['call'])
+        print('call          %s' % json.dumps(r['call']))
+        print('reused object -> %s' % got[:600])
+        print('new object    -> %s' % want[:600])
+        print('REPRODUCED' if got != want else 'not reproduced on this tree')
+        return 1 if got != want else 0
     return 1
